@@ -43,14 +43,14 @@ def bodies():
     return old, new
 
 
-def make_home(state, old, endpoint, timeout="400ms"):
+def make_home(state, old, endpoint, timeout="400ms", limits=False):
     os.makedirs(RUN_DIR, exist_ok=True)
     home = tempfile.mkdtemp(prefix="c20-", dir=RUN_DIR)
     os.makedirs(os.path.join(home, "config", "rink"))
     os.makedirs(os.path.join(home, "cache", "rink"))
     open(os.path.join(home, "config", "rink", "config.toml"), "w").write(
         '[currency]\nenabled = true\nfetch_on_startup = true\nendpoint = "%s"\ncache_duration = "1h"\ntimeout = "%s"\n'
-        '[limits]\nenabled = false\n[colors]\nenabled = false\n' % (endpoint, timeout))
+        '[limits]\nenabled = %s\n[colors]\nenabled = false\n' % (endpoint, timeout, "true" if limits else "false"))
     cache = os.path.join(home, "cache", "rink", "currency.json")
     prev = None
     if state in ("fresh", "stale", "future"):
@@ -171,6 +171,7 @@ def behaviours(new_len, tier):
     out = [("ok", "/ok", True), ("chunked", "/chunked", True)]
     out += [("cl_cut", "/cl_cut/%d" % k, False) for k in cuts]
     out += [("chunk_cut", "/chunk_cut/%d" % k, False) for k in (cuts if tier == "thorough" else cuts[::2])]
+    out += [("hdr_cut", "/hdr_cut/%d" % k, False) for k in ([17, 40, 70] if tier == "quick" else [1, 10, 16, 17, 18, 25, 40, 55, 70, 90, 100])]
     out += [("status_%d" % c, "/status/%d" % c, False) for c in (301, 302, 404, 500, 503)]
     out += [("stall", "/stall/3000", False), ("stall_headers", "/stall_headers/3000", False), ("rst", "/rst", False),
             ("refused", None, False), ("garbage", "/garbage", True)]
@@ -178,10 +179,11 @@ def behaviours(new_len, tier):
 
 
 def scenario(job):
-    (state, bname, path, transfer_ok, entry, old, new, server, with_strace, seed) = job
+    (state, bname, path, transfer_ok, entry, old, new, server, with_strace, seed) = job[:10]
+    limits = len(job) > 10 and job[10]
     endpoint = server.url(path) if path is not None else "http://127.0.0.1:%d/ok" % closed_port()
-    home, cache, prev = make_home(state, old, endpoint)
-    res = {"state": state, "behaviour": bname, "entry": entry, "problems": [], "observed": {}}
+    home, cache, prev = make_home(state, old, endpoint, limits=limits)
+    res = {"state": state, "behaviour": bname + ("+sandboxed" if limits else ""), "entry": entry, "problems": [], "observed": {}}
     try:
         before = read_cache(cache)
         slog = os.path.join(home, "strace.log") if with_strace else None
@@ -348,7 +350,7 @@ def crash_points(run, old, new, server, state):
 def run(tier, seed):
     run = Run("C20", tier, seed, "fault_enumeration", floor=40)
     run.rule = ("real `rink` binary with XDG dirs in a scratch home and the endpoint pointed at a fault-injecting loopback server: "
-                "prior cache {absent, fresh, stale, unreadable fresh, unreadable stale, dated ahead of the clock} x server {200 complete (Content-Length and "
+                "prior cache {absent, fresh, stale, unreadable fresh, unreadable stale, dated ahead of the clock} x server {connection closed inside the response headers} x server {200 complete (Content-Length and "
                 "chunked), body cut after k bytes under both framings, 301/302/404/500/503, stall in body and before headers, reset, "
                 "refused, complete non-JSON body} x entry point {startup with a currency query, --fetch-currency}; cache bytes "
                 "compared with the two admissible contents, this and the next start's output checked, strace log checked against "
@@ -373,6 +375,12 @@ def run(tier, seed):
                     if tier == "quick" and bname in ("cl_cut", "chunk_cut") and state not in ("absent", "stale"):
                         continue
                     jobs.append((state, bname, path, ok, entry, old, new, server, True, rng.randrange(1 << 30)))
+        # queries evaluated in the sandboxed child (`[limits] enabled = true`): the child loads the configuration as well,
+        # and whatever it prints on stdout lands in the pipe to the parent
+        for state in ("absent", "stale", "fresh"):
+            for (bname, path, ok) in [("ok", "/ok", True), ("status_500", "/status/500", False), ("refused", None, False),
+                                      ("cl_cut", "/cl_cut/%d" % (len(new) // 2), False), ("stall", "/stall/3000", False), ("garbage", "/garbage", True)]:
+                jobs.append((state, bname, path, ok, "startup", old, new, server, False, rng.randrange(1 << 30), True))
         with ThreadPoolExecutor(max_workers=nproc()) as ex:
             for res in ex.map(scenario, jobs):
                 run.evaluations += 1
